@@ -111,4 +111,10 @@ CLAIMS = {
         "note": "Trusted: Lean kernel; decoders hand-written (validated by C16's run); the hook's completeness (every mutating call site instrumented); the formal link 'monitor acceptance implies EvPre of the abstract disk model' is stated in prose, not yet as a Lean theorem.",
         "technique": "Lean 4 theorems (soundness of the placement monitor) + the monitor evaluated by the Lean driver on real pre-images and real I/O traces",
     },
+    "C15": {
+        "text": "LTS of the reader/writer protocol (sessions read-lock, commits write-lock or try_write, base compared and root published under the write guard). For every interleaving of any number of threads: T15.1 a held write guard excludes all sessions; T15.2 every live session's starting version is still the committed version; T15.3 successful commits form a chain, each based on the state the previous winner left; T15.3b accepted iff base is current; T15.4a/b a non-blocking commit never waits and a blocking one can proceed once sessions end. The real locks are exercised by threaded stress runs with version stamps, winner-chain reconstruction and a watchdog.",
+        "design_ref": "§4 C15",
+        "note": "Partial by nature: the theorems are about the protocol model; conformance of the real locks under the real scheduler is sampled. Deadlock freedom is proved only in the one-lock abstraction (T15.4), not over the full lock order of the store.",
+        "technique": "Lean 4 theorems (invariant over all interleavings of the lock-protocol LTS) + threaded stress with stamp / winner-chain oracles under a watchdog",
+    },
 }
